@@ -114,3 +114,33 @@ Definition ex_liq_history : list op := ex_liq_prefix ++ [ex_handover].
 Definition ex_liq_clean_history : list op :=
   [OLend 2 3 3 1000000000 1 1 0; OLend 1 2 2 1000000000 1 1 0; OLend 3 2 2 2000000000 1 1 0;
    OBorrow 1 2 4 false 6 1000000000 3 900000 bi0 bi0; OSetPrice 2 (Some 100000); OHandOver 1 1 7000000000000000000].
+
+(* ---------- the close of a handed-over position (harness/c08_close_test.go TestC08Close, same numbers) ---------- *)
+(* finding C08-F3 (a): position 1 (900 000 of asset 3 against 1 000 000 000 cTokens of asset 2) accrues 152.83 coins of
+   interest (reserve share 152.71) in 30 days, is handed over and closed: the auction pays 945 000 (principal + 5 %), the
+   close forwards 45 000 + 152 to the reserve: the pool of asset 3 ends with 999 999 848 coins against a published total
+   lent of 1 000 000 000 and nothing lent out *)
+Definition ex_close_interest_prefix : list op :=
+  [OLend 2 3 3 1000000000 1 1 0; OLend 1 2 2 2000000000 1 1 0;
+   OBorrow 1 2 4 false 6 1000000000 3 900000 bi0 bi0;
+   OCalc 1 [mkBI 0 152833675564800000000 152709880287474000000] [0];
+   OSetPrice 2 (Some 700000); OHandOver 1 1 0].
+Definition ex_close_interest : op := OAucClose 1 945000 1 0.
+(* finding C08-F3 (b): an e-mode pair (asset 1: ordinary penalty 0.05, e-mode penalty 0.08) closed without interest *)
+Definition ex_close_emode_prefix : list op :=
+  [OLend 2 3 3 1000000000 1 1 0; OLend 3 1 1 1000000000 1 1 0;
+   OBorrow 3 2 2 false 5 500000000 3 1000000 bi0 bi0;
+   OSetPrice 1 (Some 1000000); OHandOver 1 1 0].
+Definition ex_close_emode : op := OAucClose 1 1050000 3 0.
+(* outside the class: an ordinary pair closed without interest *)
+Definition ex_close_plain_prefix : list op :=
+  [OLend 2 3 3 1000000000 1 1 0; OLend 1 2 2 2000000000 1 1 0;
+   OBorrow 1 2 4 false 6 1000000000 3 900000 bi0 bi0;
+   OSetPrice 2 (Some 700000); OHandOver 1 1 0].
+Definition ex_close_plain : op := OAucClose 1 945000 1 0.
+(* finding C10-F7 seen from the lend books: a cross-pool position on a lend position that pledged its whole AmountIn *)
+Definition ex_close_stuck_prefix : list op :=
+  [OLend 2 4 4 2000000000 2 1 0; OLend 2 3 3 1000000000 1 1 0; OLend 1 2 2 1000000000 1 1 0;
+   OBorrow 1 3 13 false 6 1000000000 4 1000000000 bi0 bi0;
+   OSetPrice 2 (Some 600000); OHandOver 1 1 0].
+Definition ex_close_stuck : op := OAucClose 1 1050000000 1 0.
